@@ -40,6 +40,8 @@ def table : List (Nat × PCert) :=
     (43, ⟨mk 43 111 100 2002 2000 1 24 false kuE gm "gm.test" [1], true⟩),
     (44, ⟨mk 44 144 100 2001 2000 (-24) 24 false kuS ["other.test"] "other.test" [1], true⟩),
     (45, ⟨mk 45 144 100 2002 2000 (-24) 24 false kuE ["other.test"] "other.test" [1], true⟩),
+    (53, ⟨mk 53 153 100 2001 2000 (-24) 24 false kuS ["*.test"] "wildcard" [1], true⟩),  -- wildcard names
+    (54, ⟨mk 54 154 100 2002 2000 (-24) 24 false kuE ["*.test"] "wildcard" [1], true⟩),
     (46, ⟨mk 46 110 100 2001 2000 (-24) 24 false 0 gm "gm.test" [1], true⟩),            -- no key usage
     (47, ⟨mk 47 111 100 2002 2000 (-24) 24 false 0 gm "gm.test" [1], true⟩),
     (48, ⟨mk 48 111 100 2002 2000 (-24) 24 false kuS gm "gm.test" [1], true⟩),          -- signing usage, enc position
@@ -80,6 +82,8 @@ def serverOf : String → Option (Nat × Key × Nat × Key)
   | "s-expired-enc" => some (10, 2001, 41, 2002)
   | "s-notyet-sign" => some (42, 2001, 11, 2002)
   | "s-notyet-enc" => some (10, 2001, 43, 2002)
+  | "s-wildcard-ok" => some (53, 2001, 54, 2002)
+  | "s-wildcard-deep" => some (53, 2001, 54, 2002)
   | "s-wrongname-sign" => some (44, 2001, 11, 2002)
   | "s-wrongname-enc" => some (10, 2001, 45, 2002)
   | "s-rsa-sign" => some (60, 2001, 11, 2002)
@@ -243,7 +247,7 @@ def authOp (args : List String) : String :=
       | none => "bad-op"
       | some (c0, k0, c1, k1) =>
         let mkClient (random : Nat) (pms : Val) : Client :=
-          { insecureSkipVerify := isvS == "1", roots := [caMain], opts := ⟨0, "gm.test", false, "", []⟩,
+          { insecureSkipVerify := isvS == "1", roots := [caMain], opts := ⟨0, (if attack = "s-wildcard-deep" then "a.gm.test" else "gm.test"), false, "", []⟩,
             suites := [suite, other], ext := 7, cert := chain, key := ckey, random := random, pms := pms }
         let mkServer (random : Nat) : Server :=
           { certs := [c0, c1], encDer := c1, signKey := k0, decKey := k1, clientAuth := pol, clientCAs := [caMain], now := 0,
